@@ -43,8 +43,8 @@ Sub-check `history` (several pricings, objects re-used). A history is a list of 
                           with the table sampler, plus the plain two-step histories for (seed, nb_of_processes) in
                           {None, 7} x {1, 2, None with 2 cpus} other than (7, 1) (D = 1 with one process, 0 with a pool);
                thorough = all three-step histories over the step alphabet (+ restore as third step) for seed 7 / one process
-                          with D = 1 (table and alias samplers for the plain ones), the plain three-step ones for the other
-                          environments with D = 1.
+                          (default schedule in their `pool` steps; table and alias samplers for the plain ones), the plain
+                          three-step ones for the other environments with D = 1.
 Oracle (a) with a seed and one process, a pricing stores identical samples (and returns the same price) bit for bit whatever
            happened before: two runs on fresh objects started from two DIFFERENT pre-existing generator states (`repeat`), and
            every step of a history whose effective configuration has a seed and one process against the SAME pricing made on
@@ -175,7 +175,7 @@ def _history_cases(tier):
                                     third = _step("same", op3, restore=restore) if lab3 == "restore" else _step(lab3, op3)
                                     hs.append([first, _step(lab2, op2), third])
             for h in hs:
-                out.append(dict(base, seed=SEED, procs=1, cpus=None, bound=1 if thorough else 0, steps=h))
+                out.append(dict(base, seed=SEED, procs=1, cpus=None, bound=0, steps=h))  # choice points only in a `pool` step
                 if process == "chain" and all(st["label"] == "same" for st in h):
                     # the table sampler draws its states from `random`, the alias sampler from its own numpy calls
                     for method in (("TABLE", "ALIAS") if thorough else ("TABLE",)):
